@@ -320,6 +320,9 @@ def gen_cases(rng, tier):
     # fields, next to a resource the step does not select (round 8)
     for ko in (None, 'rotate', 'reverse'):
         cases.append({'kind': 'flow', 'workers': 2, 'n': 7, 'keyorder': ko})
+    # (round 9) a console that cannot show the failure report; cells larger than a pipe buffer with four workers
+    cases.append({'kind': 'flowchild', 'workers': 2, 'n': 20, 'fail': True, 'ascii': True, 'cell': 3})
+    cases.append({'kind': 'flowchild', 'workers': 4, 'n': 40, 'fail': False, 'ascii': False, 'cell': 20000})
     if tier == 'thorough':
         cases.append({'kind': 'real_processes', 'workers': 3, 'rows': gen_rows(40, 'some')})
         cases.append({'kind': 'real_processes', 'workers': 2, 'rows': gen_rows(30, 'all', ['OSError', 'ValueError', 'EOFError'])})
@@ -381,9 +384,56 @@ def run_flow_case(case):
     return {'problem': problem, 'schedules': 1}
 
 
+FLOWCHILD = '''
+import sys, json
+sys.path.insert(0, %(repo)r)
+from dataflows import Flow, parallelize
+def rf(row):
+    if %(fail)r and row['i'] %% 3 == 0:
+        raise ValueError('kaputt: caf\\u00e9 %%d' %% row['i'])
+    row['v'] = row['i'] * 2
+if __name__ == '__main__':
+    rows = [{'i': i, 'v': 0, 's': ('\\u00e9' if %(fail)r else 'x') * %(cell)d} for i in range(%(n)d)]
+    import io, contextlib
+    buf = io.StringIO()
+    out = Flow(rows, parallelize(rf, num_processors=%(workers)d)).results()[0][0]
+    sys.stdout.write('RESULT ' + json.dumps(sorted([r['i'], r['v'], len(r['s'])] for r in out)) + chr(10))
+'''
+
+
+def run_flowchild(case):
+    """the public step in a Flow run by a child interpreter: under an ASCII locale with a row function that fails with a
+    non-ASCII message, or with cells larger than a pipe buffer and several workers; a watchdog ends a run that does not
+    terminate"""
+    import subprocess
+    code = FLOWCHILD % {'repo': REPO, 'fail': case['fail'], 'cell': case['cell'], 'n': case['n'], 'workers': case['workers']}
+    env = dict(os.environ, PYTHONPATH=REPO, PYTHONHASHSEED='0')
+    if case['ascii']:
+        env.update(LC_ALL='C', LANG='C', PYTHONUTF8='0', PYTHONCOERCECLOCALE='0')
+        env.pop('PYTHONIOENCODING', None)
+    try:
+        p = subprocess.run([PY, '-c', code], stdout=subprocess.PIPE, stderr=subprocess.PIPE, timeout=120, env=env)
+    except subprocess.TimeoutExpired:
+        return {'problem': 'the flow did not terminate within 120 seconds', 'schedules': 1}
+    got = None
+    for line in p.stdout.decode('ascii', 'replace').splitlines():
+        if 'RESULT ' in line:          # (the workers' reports share the stream: one may have been cut short in front of it)
+            got = json.loads(line[line.index('RESULT ') + 7:])
+    if got is None:
+        return {'problem': 'the flow failed: %s' % p.stderr.decode('ascii', 'replace')[-300:], 'schedules': 1}
+    want = sorted([i, 0 if (case['fail'] and i % 3 == 0) else 2 * i, case['cell']] for i in range(case['n']))
+    if got != want:
+        return {'problem': 'parallelize in a flow (%s): %d of %d rows delivered, missing or wrong: %r' % (
+            'ASCII console, failing row function' if case['ascii'] else 'cells of %d characters' % case['cell'], len(got), len(want),
+            [w for w in want if w not in got][:4]), 'schedules': 1}
+    return {'problem': None, 'schedules': 1}
+
+
 def run_impl(case):
     if case['kind'] == 'flow':
         return run_flow_case(case)
+    if case['kind'] == 'flowchild':
+        return run_flowchild(case)
     rows = case['rows']
     n = case['workers']
     if case['kind'] == 'real_processes':
@@ -458,7 +508,7 @@ def coq_term(case, out):
 
 
 def nontrivial(case, out):
-    return case['kind'] == 'flow' or any(r['sel'] for r in case['rows'])
+    return case['kind'] in ('flow', 'flowchild') or any(r['sel'] for r in case['rows'])
 
 
 def evidence_extra(case, out):
